@@ -12,7 +12,7 @@ open PM
 open PM.SchemaCompile PM.SchemaBuild PM.ParseC
 open PM.SpecParse
 open PM.C06
-open PM.Gen PM.Family
+open PM.Gen PM.Family PM.FromDom
 
 /-- `PM.C06.buildSchema_content_correct` with its schema guards discharged for the bundled schema family -/
 theorem buildSchema_content_correct {spec : Spec} {S : Schema} (hS : (spec, S) ∈ familySpecs) (i : Nat)
